@@ -70,7 +70,7 @@ psf_get_chunk_iterator (SF_PRIVATE * psf, const char * marker_str)
 
 		/* A short id must not leave stack residue in the marker. */
 		memset (&u, 0, sizeof (u)) ;
-		snprintf (u.str, sizeof (u.str), "%s", marker_str) ;
+		snprintf (u.str, sizeof (u.str), "%-4s", marker_str) ;
 
 		marker_len = strlen (marker_str) ;
 		if (marker_len > 64)
@@ -171,7 +171,7 @@ psf_find_read_chunk_str (const READ_CHUNKS * pchk, const char * marker_str)
 
 	/* A short id must not leave stack residue in the marker. */
 	memset (&u, 0, sizeof (u)) ;
-	snprintf (u.str, sizeof (u.str), "%s", marker_str) ;
+	snprintf (u.str, sizeof (u.str), "%-4s", marker_str) ;
 
 	hash = strlen (marker_str) > 4 ? hash_of_str (marker_str) : u.marker ;
 
@@ -263,7 +263,8 @@ psf_save_write_chunk (WRITE_CHUNKS * pchk, const SF_CHUNK_INFO * chunk_info)
 
 	/* A short id must not leave stack residue in the marker. */
 	memset (&u, 0, sizeof (u)) ;
-	snprintf (u.str, sizeof (u.str), "%.4s", chunk_info->id) ;
+	/* Container chunk ids are four characters : shorter ones are padded with spaces (as in 'fmt '). */
+	snprintf (u.str, sizeof (u.str), "%-4.4s", chunk_info->id) ;
 
 	pchk->chunks [pchk->used].hash = strlen (chunk_info->id) > 4 ? hash_of_str (chunk_info->id) : u.marker ;
 	pchk->chunks [pchk->used].mark32 = u.marker ;
